@@ -63,6 +63,9 @@ def setInsert (s : List Nat) (x : Nat) : List Nat := if s.contains x then s else
 /-- `HashSet::remove` on the list model of a set -/
 def setRemove (s : List Nat) (x : Nat) : List Nat := s.filter (fun j => !(j == x))
 
+/-- Rust `iter().enumerate()`: (position, element) pairs -/
+def enumerateL {β : Type} (xs : List β) : List (Nat × β) := xs.zipIdx.map (fun p => (p.2, p.1))
+
 /-- Rust `slice.windows(2)`: the consecutive pairs, each as a two-element list -/
 def windows2 {β : Type} : List β → List (List β)
   | a :: b :: r => [a, b] :: windows2 (b :: r)
